@@ -78,6 +78,11 @@ func (r *bucketRegistry) unregisterBucket(bucket *Bucket) {
 	r.lock.Lock()
 	defer r.lock.Unlock()
 
+	if registered := r.buckets[name]; registered == nil || registered.sqliteDB != bucket.sqliteDB {
+		// This handle belongs to a bucket that has been deleted; its name may be in use again
+		// by a different bucket, which must not be affected.
+		return
+	}
 	bucketCount := r.bucketCount[name]
 	if bucketCount == 0 {
 		warn("unregisterBucket couldn't find %v", bucket)
